@@ -22,7 +22,7 @@ EXPLANATION = (
     "variables; (values) every reported per-realization value is the value the evaluator returned for the row with that label; (activity) an entry is flagged inactive only if its "
     "in-force weight is zero, and in a split gradient evaluation every zero-weight entry is flagged; (inertness, relational) two evaluator outputs that differ only in inactive "
     "entries give identical results; (frame) the evaluator's result object and arrays are unchanged after the call and every array stored in a result is a fresh read-only copy. "
-    "Shapes R <= 3, P <= 2, N <= 2, batch <= 2 enumerated."
+    "Shapes R <= 3, P <= 2, N <= 2, batch <= 2 enumerated (thorough: R <= 4, P <= 3, N <= 3, batch <= 3)."
 )
 ASSUMPTIONS = [
     "least-squares solve as an uninterpreted function (contract stub); sampler interface contract",
